@@ -51,6 +51,7 @@ func runC06(c *Config, r *Report) {
 	c06R2(ic, r)
 	c06R3(ic, r)
 	c06R4(ic, r)
+	c06R18(ic, r)
 	c06R10(ic, r)
 	c06R11(ic, r, "R06.11")
 	c06R12(ic, r)
@@ -630,7 +631,7 @@ func c06R4(ic *IC, r *Report) {
 				case *ast.IfStmt:
 					ast.Inspect(x.Body, func(k ast.Node) bool {
 						if c, ok := k.(*ast.CallExpr); ok {
-							if id, ok := c.Fun.(*ast.Ident); ok && id.Name == "panic" && len(c.Args) == 1 && selField(ic.Info, c.Args[0]) == recFld {
+							if id, ok := c.Fun.(*ast.Ident); ok && id.Name == "panic" && len(c.Args) == 1 && fieldOrLocalCopy(ic, fl.Body, c.Args[0], recFld) {
 								if repanic == nil {
 									repanic = c
 									panicCond = x.Cond
@@ -1356,5 +1357,82 @@ func c06R16(ic *IC, r *Report) {
 	}
 	if n < 3 {
 		r.Errorf("R06.16: only %d deferred records found (three defer forms expected)", n)
+	}
+}
+
+func init() {
+	ruleText["R06.18"] = "a panic that leaves a frame is no longer in flight in that frame: in the unwinding function (the deferred literal of runCfg that stores recover() into frame.recovered and runs the deferred records) the re-panic does not read the field as its argument while leaving it set - the field is assigned nil before the call of panic, in the same block, and the argument is a local copy. The global frame outlives the evaluation: a value left there is what a plain recover() of the next evaluation returns"
+}
+
+// c06R18: D126 (round-8 report on C06, E1).
+func c06R18(ic *IC, r *Report) {
+	info := ic.Info
+	recFld := ic.field("frame", "recovered")
+	fi := ic.fn(r, "runCfg")
+	if recFld == nil || fi == nil {
+		r.Errorf("R06.18: frame.recovered / runCfg not found")
+		return
+	}
+	n := 0
+	ast.Inspect(fi.Decl.Body, func(q ast.Node) bool {
+		ds, ok := q.(*ast.DeferStmt)
+		if !ok {
+			return true
+		}
+		fl, ok := ds.Call.Fun.(*ast.FuncLit)
+		if !ok {
+			return true
+		}
+		ast.Inspect(fl.Body, func(z ast.Node) bool {
+			blk, ok := z.(*ast.BlockStmt)
+			if !ok {
+				return true
+			}
+			for i, st := range blk.List {
+				es, ok := st.(*ast.ExprStmt)
+				if !ok {
+					continue
+				}
+				c, ok := es.X.(*ast.CallExpr)
+				if !ok || len(c.Args) != 1 {
+					continue
+				}
+				if id := identOf(c.Fun); id == nil || id.Name != "panic" || info.Uses[id] != types.Universe.Lookup("panic") {
+					continue
+				}
+				n++
+				readsField := false
+				ast.Inspect(c.Args[0], func(y ast.Node) bool {
+					if se, ok := y.(*ast.SelectorExpr); ok && selField(info, se) == recFld {
+						readsField = true
+					}
+					return true
+				})
+				cleared := false
+				for _, prev := range blk.List[:i] {
+					if as, ok := prev.(*ast.AssignStmt); ok && len(as.Lhs) == 1 && len(as.Rhs) == 1 {
+						if se, ok := unparen(as.Lhs[0]).(*ast.SelectorExpr); ok && selField(info, se) == recFld {
+							if id := identOf(as.Rhs[0]); id != nil && id.Name == "nil" {
+								cleared = true
+							}
+						}
+					}
+				}
+				why := ""
+				switch {
+				case readsField:
+					why = "the re-panic reads the field as its argument (" + types.ExprString(c.Args[0]) + "), so the field is still set when the panic goes on"
+				case !cleared:
+					why = "the field is not assigned nil before the re-panic"
+				}
+				r.Check(why == "", "R06.18", fmt.Sprintf("runCfg/re-panic#%d/value-not-left-in-the-frame", n), ic.pos(c.Pos()), "the field is cleared and a local copy is re-raised",
+					"in the unwinding function of runCfg "+why+": the value stays in frame.recovered of a frame the panic has left. For the global frame, which outlives the evaluation, a later Eval that calls a function doing a plain recover() (not deferred, no panic in flight) gets the value of the previous, failed Eval instead of nil")
+			}
+			return true
+		})
+		return true
+	})
+	if n == 0 {
+		r.Errorf("R06.18: no re-panic found in the deferred literal of runCfg")
 	}
 }
